@@ -655,10 +655,11 @@ fn c04(args: &Args) -> ! {
 // ------------------------------------------------------------------ C05 client half
 
 fn c05(args: &Args) -> ! {
-    let mut rep = Report::new("C05", "client half: every scripted peer reply stream (k in 0..=4 (thorough 8) continues replies, then a final result or a final error (standard or custom), followed by a second call) against MethodCall::more(): the iteration yields exactly the k items in order, then the final item (Ok or the matching Err), then None (asked three times), and the next call on the connection succeeds with its own reply; also the same streams read by explicit recv() calls, with an error reply that still carries continues:true in the middle of the stream, and with a second call attempted after every item (must fail busy without writing); non-trivial = distinct (k, final kind, reading style)");
+    let mut rep = Report::new("C05", "client half: every scripted peer reply stream (k in 0..=4 (thorough 8) continues replies, then a final result or a final error (standard or custom; the final reply omits `continues` or spells out false), followed by a second call) against MethodCall::more(): the iteration yields exactly the k items in order, then the final item (Ok or the matching Err), then None (asked three times), and the next call on the connection succeeds with its own reply; also the same streams read by explicit recv() calls, with an error reply that still carries continues:true in the middle of the stream, and with a second call attempted after every item (must fail busy without writing); non-trivial = distinct (k, final kind, reading style)");
     let replay = args.replay_case();
     let kmax = if args.thorough() { 8 } else { 4 };
-    let finals = ["ok", "err-custom", "err-std", "ok-noparams"];
+    // (a final reply may spell out "continues": false instead of omitting the member)
+    let finals = ["ok", "err-custom", "err-std", "ok-noparams", "ok-explicit-false", "err-custom-explicit-false"];
     for k in 0..=kmax {
         for f in finals {
             for style in ["iter", "recv", "iter-errmid", "iter-busyprobe"] {
@@ -691,6 +692,8 @@ fn c05(args: &Args) -> ! {
                         }
                         b.extend(match f {
                             "ok" => frame(&json!({"parameters": {"tok": tok, "i": k}})),
+                            "ok-explicit-false" => frame(&json!({"continues": false, "parameters": {"tok": tok, "i": k}})),
+                            "err-custom-explicit-false" => frame(&json!({"continues": false, "error": "a.b.Failed", "parameters": {"why": "x"}})),
                             "ok-noparams" => frame(&json!({})),
                             "err-custom" => frame(&json!({"error": "a.b.Failed", "parameters": {"why": "x"}})),
                             _ => frame(&json!({"error": "org.varlink.service.InvalidParameter", "parameters": {"parameter": "p"}})),
@@ -746,7 +749,8 @@ fn c05(args: &Args) -> ! {
                         want[0] = Err(format!("{:?}", ErrorKind::VarlinkErrorReply(varlink::Reply { continues: Some(true), error: Some("a.b.Warn".into()), parameters: Some(json!({"i": 0})) })));
                     }
                     want.push(match f {
-                        "ok" => Ok(json!({"tok": "m", "i": k}).to_string()),
+                        "ok" | "ok-explicit-false" => Ok(json!({"tok": "m", "i": k}).to_string()),
+                        "err-custom-explicit-false" => Err(format!("{:?}", ErrorKind::VarlinkErrorReply(varlink::Reply { continues: Some(false), error: Some("a.b.Failed".into()), parameters: Some(json!({"why": "x"})) }))),
                         "ok-noparams" => Ok(json!({}).to_string()),
                         "err-custom" => Err(format!("{:?}", ErrorKind::VarlinkErrorReply(varlink::Reply { continues: None, error: Some("a.b.Failed".into()), parameters: Some(json!({"why": "x"})) }))),
                         _ => Err(format!("{:?}", ErrorKind::InvalidParameter("p".into()))),
